@@ -319,12 +319,11 @@ func ruleReaderWindow(c *Ctx, r *Report, prefix string) {
 						cfgAlloc = st.Addr.(*ssa.FieldAddr).X
 					} else if storeIsMax(st, fCfg) {
 						// the stored value is int(f.dictCap)
-						if cv, isC := st.Val.(*ssa.Convert); isC {
-							if fl, isF := cv.X.(*ssa.Field); isF && fieldOfField(fl) == fFDC {
-								okMax = true
-							} else if isFieldLoadOf(cv.X, fFDC) {
-								okMax = true
-							}
+						sv := stripConv(st.Val) // int(f.dictCap), possibly delivered by a new helper
+						if fl, isF := sv.(*ssa.Field); isF && fieldOfField(fl) == fFDC {
+							okMax = true
+						} else if isFieldLoadOf(sv, fFDC) {
+							okMax = true
 						}
 					}
 				}
